@@ -25,7 +25,7 @@ def make_classify(tu):
                 f = erase(lhs[1])
                 if lib.is_set_reported(tu, ev):
                     return ("sym", "set_reported")
-                if f == "trompeloeil::lifetime_monitor::died":
+                if f == lib.died_field(tu):
                     return ("sym", "set_died")
             return None
         if k == "decl" and "unique_lock<" in ev.get("type", ""):
@@ -62,7 +62,7 @@ def make_classify(tu):
             return ("sym", "set_limits")
         if n == "std::atomic::operator=" or n.startswith("std::atomic") and ev.get("op") == "=":
             r = lib.strip_casts(ev.get("recv"))
-            if isinstance(r, list) and r[:1] == ["member"] and erase(r[1]) == "trompeloeil::lifetime_monitor::died":
+            if isinstance(r, list) and r[:1] == ["member"] and erase(r[1]) == lib.died_field(tu):
                 return ("sym", "set_died")
         if n in (A["send_report"], A["send"]):
             sev = lib.severity_of(ev["args"][0], env) if ev.get("args") else "?"
